@@ -1591,6 +1591,9 @@ func (g *Gen) genQuery(w *World, ntx int) QuerySpec {
 		// the first few, then "all the rest"
 		q.Limit = uint64(1 + g.R.Intn(3))
 		q.Rest = pick(g.R, []uint64{1000, 1 << 32, 1 << 63, ^uint64(0) - 1, ^uint64(0)})
+	} else if g.Prop == "C20" && g.pct(4) {
+		// "everything at once"
+		q.Limit = pick(g.R, []uint64{1 << 63, ^uint64(0) - 1, ^uint64(0)})
 	}
 	q.MidTx = -1
 	if g.pct(35) && ntx > 0 {
